@@ -22,7 +22,7 @@ func fuzzProp[C any](c Check[C], col *stats.Collector) func(*rapid.T) {
 			nt, classes = c.Classify(cs)
 		}
 		col.Case(cs, nt, classes, func() any { return sampleOf(cs) })
-		v := c.Run(cs)
+		v := safeRun(c, cs)
 		if v == nil || isKnown(v) {
 			return
 		}
